@@ -984,6 +984,125 @@ fn goldens(args: &util::Args) {
     print!("{}", out);
 }
 
+// ------------------------------------------------------------------ host positions
+
+/// the real reading of one source text: the `Debug` text of the whole lowered `ast::File` without
+/// source positions, or `ERR:<stage>:<message>` / `PANIC:…`; for the base host also the initialiser of
+/// the first `let` of `fn t` (its `Debug` text and its tree dump)
+fn read_file(path: &Path, src: &str) -> (String, Option<(String, String)>) {
+    let r = catch_unwind(AssertUnwindSafe(|| pipeline::parse_ast_file(path, src)));
+    match r {
+        Err(p) => (format!("PANIC:{}", util::panic_message(p)), None),
+        Ok(Err(e)) => {
+            let msg = e.diagnostics().iter().next().map(|d| d.message().to_string()).unwrap_or_default();
+            (format!("ERR:{}:{}", util::stage_of(&e), msg.chars().take(80).collect::<String>()), None)
+        }
+        Ok(Ok(file)) => {
+            let mut found = None;
+            for item in &file.toplevels {
+                if let ast::Item::Fn(f) = item {
+                    if f.name.0 != "t" {
+                        continue;
+                    }
+                    if let ast::Expr::EBlock { exprs, .. } = &f.body {
+                        if let Some(ast::Expr::ELet { value, .. }) = exprs.first() {
+                            found = Some((strip_astptr(&format!("{:?}", value)), dump_expr(value).to_text()));
+                        }
+                    }
+                }
+            }
+            (strip_astptr(&format!("{:?}", file)), found)
+        }
+    }
+}
+
+/// `gv c11 hosts --file F`: position independence of the reading of an expression text.
+/// F holds `H<TAB>name<TAB>source with the word HOLE` lines (the first one is the base host and must be
+/// of the form `… fn t() … { let … = HOLE ; … }`) and `T<TAB>id<TAB>expression text` lines. For every
+/// host the file is read once with the identifier `hole__` in the hole; a text put into the hole must
+/// then be read as exactly that file with the `hole__` expression replaced by what the text is read as
+/// in the base host (and rejected in every host if it is rejected in the base host).
+fn hosts(args: &util::Args) {
+    util::quiet_panics();
+    let file = args.rest.iter().position(|x| x == "--file").map(|i| args.rest[i + 1].clone()).expect("--file");
+    let text = std::fs::read_to_string(&file).expect("read hosts");
+    let dir = util::scratch_dir("c11h");
+    let path = dir.join("main.gom");
+    let mut out = String::new();
+    let mut hosts: Vec<(String, String, String)> = Vec::new(); // name, template, reading with hole__
+    let mut hole_dbg = String::new();
+    let mut n = 0usize;
+    for line in text.lines() {
+        let cols: Vec<&str> = line.splitn(3, '\t').collect();
+        if cols.len() < 3 {
+            continue;
+        }
+        if cols[0] == "H" {
+            let template = unesc_line(cols[2]);
+            let (d, found) = read_file(&path, &template.replace("HOLE", "hole__"));
+            if hosts.is_empty() {
+                match found {
+                    Some((dbg, _)) if d.matches(dbg.as_str()).count() == 1 => hole_dbg = dbg,
+                    _ => {
+                        let _ = writeln!(out, "{}\tHOSTBAD\tthe base host does not read as a let with the hole as initialiser: {}", cols[1], esc_line(&d.chars().take(300).collect::<String>()));
+                        break;
+                    }
+                }
+            }
+            if d.starts_with("ERR:") || d.starts_with("PANIC:") || d.matches(hole_dbg.as_str()).count() != 1 {
+                let _ = writeln!(out, "{}\tHOSTBAD\t{}", cols[1], esc_line(&d.chars().take(300).collect::<String>()));
+                continue;
+            }
+            hosts.push((cols[1].to_string(), template, d));
+        } else if cols[0] == "T" && !hosts.is_empty() {
+            let id = cols[1];
+            let expr_text = cols[2];
+            let (base_d, base_found) = read_file(&path, &hosts[0].1.replace("HOLE", expr_text));
+            let base_rejected = base_d.starts_with("ERR:") || base_d.starts_with("PANIC:");
+            let (dbg, sexp) = match (&base_found, base_rejected) {
+                (Some((dbg, sexp)), false) => (dbg.clone(), sexp.clone()),
+                (_, true) => (String::new(), base_d.clone()),
+                _ => (String::new(), "ERR:shape:no let initialiser in the base host".to_string()),
+            };
+            let mut ok = 0usize;
+            let mut bad: Vec<String> = Vec::new();
+            for (k, (name, template, with_hole)) in hosts.iter().enumerate() {
+                let src = template.replace("HOLE", expr_text);
+                let d = if k == 0 { base_d.clone() } else { read_file(&path, &src).0 };
+                n += 1;
+                let rejected = d.starts_with("ERR:") || d.starts_with("PANIC:");
+                let good = if base_rejected || dbg.is_empty() {
+                    rejected == base_rejected
+                } else {
+                    !rejected && d == with_hole.replace(hole_dbg.as_str(), dbg.as_str())
+                };
+                if good {
+                    ok += 1;
+                } else {
+                    bad.push(name.clone());
+                    // where the two readings part (a window of the observed and of the expected text)
+                    let want = with_hole.replace(hole_dbg.as_str(), dbg.as_str());
+                    let common = d.bytes().zip(want.bytes()).take_while(|(x, y)| x == y).count();
+                    let mut from = common.saturating_sub(120);
+                    while !d.is_char_boundary(from) {
+                        from -= 1;
+                    }
+                    let win = |s: &str| s[from.min(s.len())..].chars().take(420).collect::<String>();
+                    let _ = writeln!(out, "{}\tHOSTFAIL\t{}\t{}\t{}\t{}", id, name, esc_line(&src),
+                        esc_line(&if rejected { d.clone() } else { win(&d) }),
+                        esc_line(&if base_rejected { base_d.clone() } else { win(&want) }));
+                }
+            }
+            let _ = writeln!(out, "{}\tHOSTS\t{}\t{}\t{}", id, sexp, ok, bad.join(","));
+        }
+    }
+    let _ = writeln!(out, "#HOSTS\t{}", hosts.iter().map(|h| h.0.clone()).collect::<Vec<_>>().join(","));
+    let _ = std::fs::create_dir_all(&args.out);
+    std::fs::write(args.out.join("c11.hosts.tsv"), out).expect("write hosts");
+    let _ = std::fs::remove_dir_all(&dir);
+    println!("host-readings={}", n);
+}
+
 /// `gv c11 names`: CST->AST lowering commutes with renaming a local binder that is spelled like a
 /// package-level name (the catalogue of harness/src/namecat.rs; every single cell in the thorough tier)
 fn names(args: &util::Args) {
@@ -1016,8 +1135,9 @@ pub fn main(args: &util::Args) {
         Some("strs") => strs(args),
         Some("goldens") => goldens(args),
         Some("names") => names(args),
+        Some("hosts") => hosts(args),
         _ => {
-            eprintln!("usage: gv c11 <gen|parse --file F|lits|goldens>");
+            eprintln!("usage: gv c11 <gen|parse --file F|lits|strs --file F|goldens|names|hosts --file F>");
             std::process::exit(2);
         }
     }
